@@ -37,7 +37,10 @@ def install_jitter(seed, prob):
     except ValueError:
         return None
     rng = random.Random(seed)
-    counter = {'lines': 0, 'yields': 0}
+    counter = {'lines': 0, 'yields': 0, 'long_sleeps': 0}
+    # some ranks are LATE ranks: now and then they fall a few milliseconds behind their peers, so that collectives of the
+    # others stay in flight (and their completion callbacks pending) while those go on
+    late = rng.random() < 0.5
     fname = kd.__file__
 
     def on_line(code, line):
@@ -45,7 +48,10 @@ def install_jitter(seed, prob):
             return mon.DISABLE
         counter['lines'] += 1
         x = rng.random()
-        if x < prob:
+        if late and x > 0.985:
+            counter['long_sleeps'] += 1
+            time.sleep(rng.choice([1e-3, 3e-3, 8e-3]))
+        elif x < prob:
             counter['yields'] += 1
             time.sleep(0 if x < prob / 2 else 2e-5)
         return None
